@@ -1,3 +1,4 @@
+pub mod c02;
 pub mod c05;
 pub mod c06;
 pub mod c09;
@@ -5,12 +6,14 @@ pub mod c12;
 pub mod c14;
 pub mod c15;
 pub mod c16;
+pub mod simutil;
 
 use crate::common::*;
 use serde_json::Value;
 
 pub fn run_property(ctx: &mut Ctx) -> bool {
     match ctx.id.as_str() {
+        "C02" => c02::run(ctx),
         "C05" => c05::run(ctx),
         "C06" => c06::run(ctx),
         "C09" => c09::run(ctx),
@@ -56,6 +59,7 @@ pub fn replay(body: &Value) -> i32 {
     let part = body["part"].as_str().unwrap_or("");
     match part {
         "segments" => replay_part(&c09::SegPart, body),
+        "recovery" => replay_part(&c02::C02Part, body),
         "decode" => replay_part(&c06::DecPart, body),
         "crc" => replay_part(&c15::CrcPart, body),
         "udp" => replay_part(&c16::UdpPart, body),
